@@ -26,8 +26,8 @@ impl Prop for C09 {
 
     fn profiles(tier: Tier) -> Vec<Profile> {
         match tier {
-            Tier::Quick => vec![prof("signals", 160_000), prof("certain", 80_000), prof("many", 3_000)],
-            Tier::Thorough => vec![prof("signals", 1_500_000), prof("certain", 700_000), prof("many", 40_000)],
+            Tier::Quick => vec![prof("signals", 160_000), prof("certain", 80_000), prof("many", 3_000), prof("capi", 8_000), prof("capi_long", 600)],
+            Tier::Thorough => vec![prof("signals", 1_500_000), prof("certain", 700_000), prof("many", 40_000), prof("capi", 100_000), prof("capi_long", 8_000)],
         }
     }
 
@@ -57,6 +57,24 @@ impl Prop for C09 {
         match profile {
             "signals" => {}
             "certain" => mp.prob_style = 1,
+            "capi" => {
+                // signalling for C callers
+                return crate::props::capi_case(1..=5, |m| { m.max_states = 3; m.w_signal = 5; m.p_trans[12] = 0.7; m.budgets = BudgetProfile::Unlimited; }, &hp);
+            }
+            "capi_long" => {
+                // one call of hundreds of events (one signal round per call, however long the batch)
+                let hp2 = HistParams { min_calls: 2, max_calls: 10, max_batch: 6, clock: ClockProfile::Monotone, ..HistParams::default() };
+                return (crate::props::capi_case(2..=4, |m| { m.max_states = 3; m.w_signal = 5; m.p_trans[12] = 0.7; m.budgets = BudgetProfile::Unlimited; }, &hp2), 130usize..700)
+                    .prop_map(|(mut c, len)| {
+                        let flat: Vec<Ev> = c.calls.iter().flat_map(|x| x.events.iter().copied()).collect();
+                        if !flat.is_empty() {
+                            let long: Vec<Ev> = flat.iter().cycle().take(len).copied().collect();
+                            c.calls.insert(0, Call { clock: Clock::Add(1), events: long });
+                        }
+                        c
+                    })
+                    .boxed();
+            }
             "many" => {
                 // more machines than any machine-word has bits
                 mp.max_states = 2;
@@ -75,6 +93,9 @@ impl Prop for C09 {
         let n = machines.len();
         if n > 64 {
             obs.hit("more_than_64_machines");
+        }
+        if case.seed == crate::props::CAPI_MARK {
+            crate::props::capi_pass(case, obs)?;
         }
         let mut run = FwRun::new(case, machines, Some(50_000_000))
             .map_err(|e| Failure { signature: "framework-new-rejects-validated-machines".into(), detail: e })?;
